@@ -275,7 +275,9 @@ def main(argv=None):
         ps["shards"] += 1
         ps["wall_s"] = round(max(ps["wall_s"], res["wall_s"]), 1)
         if res.get("exhaustive"):
-            agg["exhaustive"].append(res["exhaustive"])
+            agg.setdefault("exhaustive_subs", set()).add(sub)
+            if res["exhaustive"] not in agg["exhaustive"]:
+                agg["exhaustive"].append(res["exhaustive"])
         for k, v in (res.get("extra") or {}).items():
             if isinstance(v, (int, float)):
                 agg["extra"][k] = agg["extra"].get(k, 0) + v
@@ -311,7 +313,8 @@ def main(argv=None):
             status = 2
 
     wall = time.time() - t0
-    all_exh = bool(agg["exhaustive"]) and len(agg["exhaustive"]) >= len({s for s, _, _ in plan}) and not args.only
+    # the run as a whole is exhaustive only if EVERY sub-check of the plan enumerated its (finite) sub-domain completely
+    all_exh = bool(agg["exhaustive"]) and agg.get("exhaustive_subs", set()) >= {s for s, _, _ in plan} and not args.only
     cov = {
         "evaluations": agg["evaluations"],
         "distinct_nontrivial": len(agg["nontrivial"]),
